@@ -934,3 +934,131 @@ func wireFieldOrderEmission(wc *wireCtx, r *Report, prop string, dirs map[string
 		r.fail(rule, "field loops found", "internal/parser", "no encode/decode emitter loops over Packet.Fields")
 	}
 }
+
+// */every-match-field: a packet may declare several match fields. Generator code that looks for "the" match field of a packet by
+// walking its fields and returning something taken from the first field of that kind - the return inside the loop is controlled
+// by the kind test alone, no comparison with anything the caller asked for - silently assumes there is only one: the second match
+// field's key is never read into a local (Lua), never consulted (decoders).
+func wireEveryMatchField(w *World, wc *wireCtx, r *Report, prop string, langs []string) {
+	rule := prop + "/every-match-field"
+	n := 0
+	for _, l := range langs {
+		var fns []*ssa.Function
+		seen := map[*ssa.Function]bool{}
+		for _, fn := range wc.anchors[l]["own"] {
+			if !seen[fn] {
+				seen[fn] = true
+				fns = append(fns, fn)
+			}
+		}
+		// parser-package helpers they call
+		for i := 0; i < len(fns); i++ {
+			forEachInstr(fns[i], func(_ *ssa.BasicBlock, ins ssa.Instruction) {
+				if c, ok := ins.(ssa.CallInstruction); ok {
+					if g := calleeOf(c); g != nil && g.Pkg == w.Parser && g.Blocks != nil && !seen[g] && w.isSubjectFunc(g) {
+						seen[g] = true
+						fns = append(fns, g)
+					}
+				}
+			})
+		}
+		for _, fn := range fns {
+			loops := fieldLoops(fn)
+			if len(loops) == 0 {
+				continue
+			}
+			cd := computeCD(fn)
+			for _, lp0 := range loops {
+				// the loop plus the blocks that leave it by returning (they are not part of the natural loop)
+				lp := fieldLoop{lp0.header, map[*ssa.BasicBlock]bool{}}
+				for b := range lp0.blocks {
+					lp.blocks[b] = true
+				}
+				for _, b := range fn.Blocks {
+					if lp.blocks[b] {
+						continue
+					}
+					if _, isRet := b.Instrs[len(b.Instrs)-1].(*ssa.Return); !isRet {
+						continue
+					}
+					for _, p := range b.Preds {
+						if lp0.blocks[p] && p != lp0.header {
+							lp.blocks[b] = true
+						}
+					}
+				}
+				// the loop element
+				taint := map[ssa.Value]bool{}
+				forEachInstr(fn, func(b *ssa.BasicBlock, ins ssa.Instruction) {
+					if ia, ok := ins.(*ssa.IndexAddr); ok && lp.blocks[b] {
+						if ld, ok := stripIdentity(ia.X).(*ssa.UnOp); ok {
+							if fa, ok := ld.X.(*ssa.FieldAddr); ok {
+								if tn, f, _, _ := fieldOf(fa); tn == "Packet" && f == "Fields" {
+									taint[ia] = true
+								}
+							}
+						}
+					}
+				})
+				for changed := true; changed; {
+					changed = false
+					forEachInstr(fn, func(b *ssa.BasicBlock, ins ssa.Instruction) {
+						v, ok := ins.(ssa.Value)
+						if !ok || taint[v] || !lp.blocks[b] {
+							return
+						}
+						if _, isPhi := ins.(*ssa.Phi); isPhi && b == lp.header {
+							return // the index itself
+						}
+						for _, op := range ins.Operands(nil) {
+							if *op != nil && taint[*op] {
+								taint[v] = true
+								changed = true
+								return
+							}
+						}
+					})
+				}
+				for b := range lp.blocks {
+					ret, ok := b.Instrs[len(b.Instrs)-1].(*ssa.Return)
+					if !ok || len(ret.Results) == 0 || !taint[ret.Results[0]] {
+						continue
+					}
+					n++
+					onlyKind, sawMatchKind := true, false
+					for _, d := range cd.allCtrl(b) {
+						if !lp.blocks[d.Branch] {
+							continue
+						}
+						cond := branchCond(d.Branch)
+						if cond == nil {
+							continue
+						}
+						if ex, ok := cond.(*ssa.Extract); ok {
+							if ta, ok := ex.Tuple.(*ssa.TypeAssert); ok && ex.Index == 1 && taint[ta.X] {
+								if modelTypeName(ta.AssertedType) == "MatchFieldAttribute" {
+									sawMatchKind = true
+								}
+								continue
+							}
+						}
+						if d.Branch == lp.header {
+							continue // the loop test
+						}
+						if _, _, isNil := nilTest(cond); isNil {
+							continue
+						}
+						onlyKind = false
+					}
+					key := fmt.Sprintf("%s %s: a result taken from a match field is selected by more than the field's kind", l, fnKey(fn))
+					if sawMatchKind && onlyKind {
+						r.fail(rule, key, w.instrPos(ret), "the loop over the packet's fields returns at the first match field, whatever the caller is looking for: with two match fields in one packet the second one's key field is never found")
+					} else if sawMatchKind {
+						r.pass(rule, key, w.instrPos(ret), "")
+					}
+				}
+			}
+		}
+	}
+	r.note("%s: returns inside field loops examined: %d", rule, n)
+}
